@@ -58,7 +58,9 @@ def duration_grid(ctx):
         boundary = (F(ram) / 20 * tps).denominator == 1
         ctx.sit("writeout_exact_multiple_of_a_tick" if boundary else "writeout_between_ticks")
         if states != ["COMPLETED", "PENDING"] or free != 1024:
-            ctx.violations.append({"what": f"after the write-out of a {ram} GB container at {tps} ticks/s: operator states {states}, free RAM {free} of 1024", "layer": "E",
+            ctx.sit("mismatch_work-returned-intact")
+            if sum(1 for v in ctx.violations if v["sig"] == {"clause": "work-returned-intact"}) < 2:
+                ctx.violations.append({"what": f"after the write-out of a {ram} GB container at {tps} ticks/s: operator states {states}, free RAM {free} of 1024", "layer": "E",
                                    "case": {"ram": ram, "tps": tps}, "sig": {"clause": "work-returned-intact"}})
         elif got != exact:
             floatrule = max(1, int(ram / 20 / (1.0 / tps)))
